@@ -162,6 +162,7 @@ type c17Probe struct {
 	APIBody    []byte
 	Metrics    int
 	PProf      int
+	PProfOther string        // a profiling route that is gated differently from the index
 	Overlap    string        // non-empty: what went wrong with the overlapping scrapes
 	OverlapAPI string        // non-empty: what went wrong with the overlapping debug API requests
 	OverlapTo  time.Duration // virtual instant at which the last overlapping scrape had finished (one slow state read per interface)
@@ -354,6 +355,14 @@ func c17Prop(t *testing.T, k *verifkit.Kit) func(c c17Case) error {
 						rec = httptest.NewRecorder()
 						h.ServeHTTP(rec, httptest.NewRequest("GET", "/debug/pprof/", nil))
 						p.PProf = rec.Code
+						// (the two other profiling routes that answer at once; profile and trace sample for seconds)
+						for _, route := range []string{"/debug/pprof/cmdline", "/debug/pprof/symbol"} {
+							rec = httptest.NewRecorder()
+							h.ServeHTTP(rec, httptest.NewRequest("GET", route, nil))
+							if rec.Code != p.PProf {
+								p.PProfOther = fmt.Sprintf("GET %s -> %d, GET /debug/pprof/ -> %d", route, rec.Code, p.PProf)
+							}
+						}
 					}()
 					p.End = w.now()
 					// (two rounds: three requests 40 us of real time apart, then two requests 80 us apart - with three, what one request
@@ -603,6 +612,9 @@ func c17Prop(t *testing.T, k *verifkit.Kit) func(c c17Case) error {
 			}
 			if p.PProf != wantPProf {
 				return verifkit.Violf("C17/pprof-route-gating", "GET /debug/pprof/ -> %d (pprof enabled: %v)\n%s", p.PProf, ref.Cfg.DebugSpec && debugCfg.PProf, text)
+			}
+			if p.PProfOther != "" {
+				return verifkit.Violf("C17/pprof-route-gating", "%s (pprof enabled: %v)\n%s", p.PProfOther, ref.Cfg.DebugSpec && debugCfg.PProf, text)
 			}
 			// expected content
 			allReady, ambiguous := true, false
